@@ -224,6 +224,11 @@ def build(rnd, typ, ninputs=None, same_fund_decoy=False, allow_invalid=False):
         meta.update(leaf_script=leaf_script, leaf=leaf, path=path, root=root, par=par, leafver=leafver)
     else:
         raise ValueError(typ)
+    if allow_invalid and typ in ('p2sh-p2wpkh', 'p2sh-p2wsh') and rnd.random() < 0.12:
+        # NOT pay-to-script-hash, only similar: the template is exactly HASH160 <20 bytes> EQUAL. Spending such an output with the witness of the
+        # wrapped program is invalid (a witness where none is expected) - whatever the signatures say
+        spk = rnd.choice([spk + b'\x61', spk[:-1], spk[:-1] + b'\x88\x51', b'\xa9\x4c\x14' + spk[2:], spk + b'\x51', b'\x61' + spk])
+        meta['not_quite_p2sh'] = True
     fund, pos = mk_funding(rnd, spk, value)
     tx, idx, decoy = mk_spending(rnd, fund, pos, ninputs, same_fund_decoy)
     vin = tx.vin[idx]
